@@ -341,3 +341,10 @@ package j5schema
 //@   loop 0 invariant s.Properties == old(s.Properties) && s.name == old(s.name) && s.description == old(s.description) && s.Entity == old(s.Entity) && s.AnyMember == old(s.AnyMember)
 //@ func (*ObjectProperty).ToJ5Proto
 //@   frame fresh E:*github.com/pentops/j5/gen/j5/schema/v1/schema_j5pb.ObjectProperty
+
+
+// ---- schema field walk (C16) ---------------------------------------------------------------------------
+// The walk keeps the set of schemas on the current path (a map handed down the recursion); its
+// nil safety depends on what the arbitrary callback leaves of the schema graph and is not swept.
+//@ func walkSchemaFields
+//@   requires walking != nil
